@@ -128,7 +128,7 @@ func makeExplorer(name, cfgs string, bound int, cache bool) (*vsched.Explorer, *
 	}
 	body, spec := sc.Make(cfg)
 	ex := &vsched.Explorer{
-		Cfg:   vsched.Config{SymSites: []string{"startWorker"}},
+		Cfg:   vsched.Config{SymSites: []string{"startWorker"}, Horizon: sc.Horizon},
 		Bound: bound,
 		Body:  func() { envnats.Reset(); body() },
 		Cache: cache,
